@@ -62,9 +62,9 @@ def cases(rng, tier):
                 p = {"lens": lens, "kind": kind, "side": side, "uf": uf, "dta": dta, "dtb": dtb, "vseed": rng.randint(0, 999),
                      # the ragged operand(s) are sometimes the RESULT of an earlier, value-preserving operation (a ufunc, a selection
                      # of all rows, a same-dtype astype): a derived array must behave - and refuse - like a freshly built one
-                     "derived": rng.choice([None, None, "ufunc", "select", "astype", "reduced"]),
+                     "derived": rng.choice([None, None, "ufunc", "select", "astype", "reduced", "rev2", "mask_all", "list_all", "concat0"]),
                      # operand values: small, or rare (NaN, infinities, -0.0, 1e16 next to 1.0, dtype extremes) with repeats
-                     "vmode": "rare" if rng.random() < 0.3 else "small"}
+                     "vmode": rng.choice(["rare", "rare", "rare", "cancel", "small", "small", "small", "small", "small", "small"])}
                 if kind == "ragged_bad":
                     if n == 0:
                         continue
@@ -165,6 +165,8 @@ def _derive(ra, how):
             warnings.simplefilter("ignore")
             ra.sum(axis=-1); ra.any(axis=-1); ra.mean(axis=-1); ra.all(axis=-1)
         return ra
+    if how in ("rev2", "mask_all", "list_all", "concat0"):
+        return gens.derive_ra(ra, how)
     return ra
 
 
@@ -182,6 +184,13 @@ def run_impl(p):
             else:
                 if k in ("column", "column_bad"):
                     x = other.reshape(-1, 1).copy()
+                    form = p["vseed"] % 5      # the column as an (n, 1) array, a nested Python list, a strided view, a read-only array
+                    if form == 1 and not p.get("inplace") and p["dtb"] in ("int64", "float64", "bool") and len(p["lens"]) > 0:
+                        x = x.tolist()
+                    elif form == 2:
+                        x = np.repeat(x, 2, axis=0)[::2]
+                    elif form == 3:
+                        x.setflags(write=False)
                 elif k == "ragged":
                     x = _derive(RaggedArray(other.copy(), list(p["lens"])), p.get("derived"))
                 elif k == "ragged_bad":
